@@ -177,6 +177,7 @@ def parseAct (line : String) : Option Act :=
     | some j => if j < 1 ∨ j > 4 then none else some (.mop (.snoop k j))
     | none => none
   | ["unsnoop"] => some (.mop (.unsnoop k))
+  | ["input", h] => (parseHex h).map fun bs => .gmop k (.input k bs)
   | ["react", l] =>
     let rs := (l.splitOn ",").map parseReact
     if rs.all Option.isSome then some (.user k (.react (rs.filterMap id))) else none
@@ -208,6 +209,7 @@ def usersOf : MOp → List Nat
   | .unsnoop k => [k]
   | .all _ => []
   | .writeR k _ _ => [k]
+  | .input k _ => [k]
 
 /-- `reactive`: a `react` command was given earlier in the case - from then on a write can reach every user (the harness
 prints the state of every user after it) -/
@@ -221,6 +223,7 @@ def runActs : World → Pend → Bool → List Act → List TEv
       else
         let w1 := ensure w p k (kind == "console")
         if kind == "telnet" then
+          let w1 := (stepM w1 (.on k .setTelnet)).1
           let neg := NV.Gen.C14.connectTelnet.map (fun m => MOp.on k (Op.write false (m.map UInt8.ofNat)))
           let r := runM w1 neg
           let r2 := stepM r.1 (.on k .flush)
@@ -243,6 +246,10 @@ def runActs : World → Pend → Bool → List Act → List TEv
         r.2 ++ runActs r.1 p re rest
     | .gmop k m =>
       let w1 := ensure w p k false
+      -- input is not fed in a case that scripts receive_snoop reactions (the harness makes it a plain pass)
+      let m := match m, re with
+        | .input _ _, true => MOp.all .wready
+        | m, _ => m
       let r := stepM w1 m
       r.2 ++ runActs r.1 p re rest
     | .mop m =>
